@@ -294,7 +294,7 @@ def drive(kinds, catelems, rkind, rcat_elems, rng, n, steps, tmp, tag, notes):
         kind = kinds[active - 1]
         cands = ["ids", "total_bounds", "bounds", "cx", "cx", "intersects_bounds", "intersects_bounds", "measure", "filter", "cx_select"]
         if pandas:
-            cands += ["sort_desc", "copy", "pickle", "set_geometry", "parquet_roundtrip"] + (["from_pandas"] * 3 if nrows >= 1 else [])
+            cands += ["sort_desc", "copy", "pickle", "set_geometry"] + (["parquet_roundtrip"] + ["from_pandas"] * 3 if nrows >= 1 else [])
             cands += ["sindex_intersects"] * 2 if nrows >= 1 else []
             if ordered and nrows >= 2:
                 cands += ["iloc", "reverse", "concat_rotate"]
